@@ -137,6 +137,20 @@ func (e *UWrapOpt) Error() string {
 }
 func (e *UWrapOpt) Unwrap() error { return e.Cause }
 
+// UWrapNote is a wrapper with an optional note: transparent when empty.
+type UWrapNote struct {
+	Note  string
+	Cause error
+}
+
+func (e *UWrapNote) Error() string {
+	if e.Note == "" {
+		return e.Cause.Error()
+	}
+	return e.Note + ": " + e.Cause.Error()
+}
+func (e *UWrapNote) Unwrap() error { return e.Cause }
+
 // UMulti is an unregistered multi-cause error.
 type UMulti struct {
 	Msg  string
